@@ -8,7 +8,7 @@ from ..spec import model as M
 ORIGIN = dt.datetime(1, 1, 1)
 
 
-def dt_from_text(text, rng, kind=None, over_precise=False):
+def dt_from_text(text, rng, kind=None, over_precise=False, foreign_meta=False):
     us = tsor.text_us(text)
     if us is None:
         return text
@@ -23,7 +23,7 @@ def dt_from_text(text, rng, kind=None, over_precise=False):
     naive = ORIGIN + dt.timedelta(microseconds=us)
     if us % (86400 * 10 ** 6) == 0 and rng.random() < 0.5:
         return naive.date()                            # a date means midnight UTC
-    if over_precise and rng.random() < 0.35:
+    if (over_precise or foreign_meta) and rng.random() < 0.35:
         # the library's own timestamp class, carrying precision metadata from wherever it was taken (another object's property)
         import stix2.utils as U
         p, c = rng.choice([("any", "exact"), ("millisecond", "min"), ("millisecond", "exact"), ("second", "min"), ("second", "exact")])
@@ -42,20 +42,20 @@ def dt_from_text(text, rng, kind=None, over_precise=False):
         return naive.replace(tzinfo=dt.timezone.utc)
 
 
-def native_kind(m, kind, v, rng, over_precise=False):
+def native_kind(m, kind, v, rng, over_precise=False, foreign_meta=False):
     if kind is None:
         return v
     k = kind["k"]
     if k == "ts" and isinstance(v, str):
-        return dt_from_text(v, rng, kind, over_precise)
+        return dt_from_text(v, rng, kind, over_precise, foreign_meta)
     if k == "list" and isinstance(v, list):
-        out = [native_kind(m, kind["of"], x, rng, over_precise) for x in v]
+        out = [native_kind(m, kind["of"], x, rng, over_precise, foreign_meta) for x in v]
         if len(out) == 1 and kind["of"]["k"] in ("string", "openvocab", "enum", "embedded", "ref") and rng.random() < 0.3 \
                 and not isinstance(out[0], dict):
             return out[0]                              # a single string / object where a list is accepted
         return out
     if k == "embedded" and isinstance(v, dict):
-        nv = native_table(m, m.embedded[kind["type"]], v, rng, over_precise)
+        nv = native_table(m, m.embedded[kind["type"]], v, rng, over_precise, foreign_meta)
         if rng.random() < 0.5:
             import stix2
             mod = stix2.v20 if m.version == "2.0" else stix2.v21
@@ -75,16 +75,16 @@ def native_kind(m, kind, v, rng, over_precise=False):
     return v
 
 
-def native_table(m, tbl, o, rng, over_precise=False):
+def native_table(m, tbl, o, rng, over_precise=False, foreign_meta=False):
     by = tbl["by_name"]
-    return {n: native_kind(m, by.get(n), v, rng, over_precise) for n, v in o.items()}
+    return {n: native_kind(m, by.get(n), v, rng, over_precise, foreign_meta) for n, v in o.items()}
 
 
-def to_native(version, o, rng, over_precise=False):
+def to_native(version, o, rng, over_precise=False, foreign_meta=False):
     m = M.model(version)
     tbl = m.types.get(o.get("type"))
     if tbl is None:
         return dict(o)
     if o.get("type") == "bundle":
         return dict(o)
-    return native_table(m, tbl, o, rng, over_precise)
+    return native_table(m, tbl, o, rng, over_precise, foreign_meta)
